@@ -31,6 +31,7 @@ type zzStateOpts struct {
 	chains                           []types.ChainID
 	concreteIds                      bool
 	symDecimals                      bool
+	decChoice                        bool // token A external decimals from {6, 18, 24}
 }
 
 func zzSteNamed(n string, chain types.ChainID, tok string, tid uint64, zeroFees bool) *types.SendToExternal {
@@ -96,6 +97,8 @@ func zzBuildState(o zzStateOpts) *zzState {
 	if o.symDecimals {
 		dA = vrt.Uint64Below("decA", 25)
 		dB = vrt.Uint64Below("decB", 25)
+	} else if o.decChoice {
+		dA = []uint64{6, 18, 24}[vrt.Choose("decA", 3)]
 	}
 	k.SetTokenInfos(ctx, &types.TokenInfos{TokenInfos: []*types.TokenInfo{
 		{Id: 1, Denom: "hub", ChainId: st.chain.String(), ExternalTokenId: st.idA, ExternalDecimals: dA, Commission: sdk.NewDecWithPrec(1, 2)},
